@@ -5,6 +5,7 @@
 -/
 import Drx.Xtract
 import DrxProofs.Xtract
+import Drx.Gen.RiffConsts
 namespace Drx.C18
 open Drx Drx.Riff Drx.Xtract
 
@@ -103,6 +104,12 @@ theorem finalDir_of_distinct (files : List (List Char × Bytes)) (h : (files.map
       rcases hg with hg | rfl
       · exact hacc f' (by simp [hf']) g hg
       · intro e; apply h.1; rw [e]; exact List.mem_map_of_mem hf'
+
+/-- tie to the source: the ignore list, the output sub-folder and the SAVE_ALL_BLOCKS switch regenerated from
+    riffxtract.py on every run are what the model uses -/
+theorem gen_constants :
+    ignoreIds = Gen.RiffConsts.chunksToIgnore.map String.toList ∧ Gen.RiffConsts.bindir = "bin" ∧
+    Gen.RiffConsts.saveAllBlocks = false ∧ Gen.RiffConsts.imapFileFormat = "imap" ∧ Gen.RiffConsts.mmapFileFormat = "mmap" := by decide
 
 /-! ### non-vacuity -/
 
